@@ -1,6 +1,6 @@
 (* Entry point of the extracted model for the correspondence check: one function from
    (function id, arguments) to the canonical observation string the Go harness records. *)
-From Wire Require Import Base.Bytes Model.Converters Model.Validators Model.GoV Model.Codec Spec.Faim.
+From Wire Require Import Base.Bytes Model.Converters Model.Validators Model.GoV Model.Codec Model.DL Model.Message Model.Writer Spec.Faim Spec.Rules.
 From WireGen Require Import Tags Verify.
 
 Definition str (s : string) : bytes := list_byte_of_string s.
@@ -36,7 +36,6 @@ Fixpoint find_tag_from (i : nat) (name : string) (l : list tagdesc) : option (na
   end.
 Definition find_tag (name : bytes) : option (nat * tagdesc) := find_tag_from 0 (string_of_list_byte name) tags.
 
-Definition validate_progs : list stmt := map t_validate tags.
 
 Fixpoint set_tag (i : nat) (v : tagval) (l : list (option tagval)) : list (option tagval) :=
   match i, l with
@@ -160,8 +159,26 @@ Definition run_msg (name : bytes) (args : list bytes) : bytes :=
   match decode_msg args with
   | None => bs "bad-args"
   | Some m =>
-      if bytes_eqb name (bs "validate") then verdict_str (run_verify validate_progs verify_prog m)
+      if bytes_eqb name (bs "validate") then verdict_str (verify m)
       else bs "unknown-function"
+  end.
+
+Definition wresult_str (r : wresult) : bytes :=
+  match r with
+  | WOk t => bs "ok:" ++ hx t
+  | WRefused v => verdict_str v
+  | WStuck => bs "stuck"
+  end.
+
+(* variable, newline, then the message *)
+Definition run_write (args : list bytes) : bytes :=
+  match args with
+  | var :: nl :: rest =>
+      match decode_msg rest with
+      | Some m => wresult_str (write_model m (bytes_eqb var (bs "1")) nl)
+      | None => bs "bad-args"
+      end
+  | _ => bs "bad-args"
   end.
 
 Definition run (fn : bytes) (args : list bytes) : bytes :=
@@ -169,7 +186,10 @@ Definition run (fn : bytes) (args : list bytes) : bytes :=
   if bytes_eqb kind (bs "validator") then res_err (run_validator (string_of_list_byte name) args)
   else if bytes_eqb kind (bs "tag") then run_tag name args
   else if bytes_eqb kind (bs "meta") then run_meta name args
-  else if bytes_eqb kind (bs "msg") then run_msg name args
+  else if bytes_eqb kind (bs "msg") then
+    (if bytes_eqb name (bs "write") then run_write args
+     else if bytes_eqb name (bs "write-refusal-bytes") then bs "0"
+     else run_msg name args)
   else bs "unknown-function".
 
 (* ---- the property oracle: what the specification says the implementation's observation
@@ -191,9 +211,59 @@ Definition spec_validator (name : string) (args : list bytes) : option bool :=
        | None => None
        end.
 
-Definition oracle (fn : bytes) (args : list bytes) : option bytes :=
+(* the documented rules evaluated directly on the concrete message *)
+Definition rules_accept (m : message) : bool :=
+  forallb (fun s => negb (cube_holds (tagv_of m) m s)) rule_cubes.
+
+Definition all_tags_valid (m : message) : bool :=
+  forallb (fun t => match get_tag m t with
+                    | None => true
+                    | Some _ => match tagv_of m t with Accept => true | _ => false end
+                    end) (seq 0 ntags).
+
+Definition amount_rule_ok (m : message) : bool :=
+  match get_tag m (tix "Amount") with
+  | None => true
+  | Some v =>
+      let a := nth 0 (tv_elems v) [] in
+      negb (match a with [] => true | _ => false end) && forallb is_digit a && (length a <=? 12) &&
+      (negb (forallb (beqb x30) a) ||
+       match get_tag m (tix "TypeSubType") with
+       | Some t => bytes_eqb (nth 1 (tv_elems t) []) (bs "90")
+       | None => false
+       end)
+  end.
+
+Definition pid_is (pid : bytes) (s : string) : bool := bytes_eqb pid (str s).
+
+Definition oracle_msg (pid : bytes) (name : bytes) (args : list bytes) : option bytes :=
+  if bytes_eqb name (bs "validate") then
+    match decode_msg args with
+    | None => None
+    | Some m =>
+        if pid_is pid "C05" || pid_is pid "C12" then Some (okrej (rules_accept m))
+        else if pid_is pid "C10" then (if all_tags_valid m then None else Some (bs "reject"))
+        else if pid_is pid "C19" then (if amount_rule_ok m then None else Some (bs "reject"))
+        else if pid_is pid "C03" then Some (bs "no-panic")
+        else None
+    end
+  else if bytes_eqb name (bs "write") then
+    match args with
+    | _ :: _ :: rest =>
+        match decode_msg rest with
+        | Some m => if pid_is pid "C06" then Some (okrej (rules_accept m)) else None
+        | None => None
+        end
+    | _ => None
+    end
+  else if bytes_eqb name (bs "write-refusal-bytes") then (if pid_is pid "C06" then Some (bs "0") else None)
+  else None.
+
+Definition oracle (pid : bytes) (fn : bytes) (args : list bytes) : option bytes :=
   let '(kind, name) := split_colon fn [] in
-  if bytes_eqb kind (bs "validator") then option_map okrej (spec_validator (string_of_list_byte name) args)
+  if bytes_eqb kind (bs "validator") then
+    (if pid_is pid "C11" then option_map okrej (spec_validator (string_of_list_byte name) args) else None)
+  else if bytes_eqb kind (bs "msg") then oracle_msg pid name args
   else None.
 
 (* stable names for the OCaml driver *)
